@@ -14,7 +14,7 @@ pub fn prop() -> Prop {
         id: "C01",
         run,
         max_len: 700,
-        quick: 40_000,
+        quick: 100_000,
         thorough: 1_500_000,
         rule: "choice sequence -> envelope spec (depth<=6, <=7 assertions/node, all leaf types, known values, wrapped, assertion-on-assertion, node-as-subject, elided/encrypted/compressed parts) built along route A twice (constructors/mutators, two insertion orders and API mixes) and route B (harness encoder -> library decoder), then 0-6 history steps; oracle = digests recomputed bottom-up by the harness (own SHA-256 + dCBOR) from the structure read through case(), at every position, plus bytes re-parsed by the harness parser, plus route independence. non-trivial: tree has >=1 node and >=3 elements; distinct by FNV-64 of the spec encoding + op list",
         assumptions: &[
@@ -105,7 +105,18 @@ pub fn leaf_types(s: &Spec, ctx: &mut Ctx) {
 pub fn run(data: &[u8], ctx: &mut Ctx) -> Outcome {
     let mut src = Src::new(data);
     let mut cfg = GenCfg::new(6, 60);
-    let spec = gen::gen_spec(&mut src, &mut cfg);
+    let mut spec = gen::gen_spec(&mut src, &mut cfg);
+    if src.chance(12) {
+        // deep class: 8-20 further levels of wrapping (each optionally with an assertion)
+        let levels = 8 + src.below(13);
+        for i in 0..levels {
+            spec = Spec::Wrapped(Box::new(spec));
+            if src.chance(64) {
+                spec = Spec::Node(Box::new(spec), vec![Spec::Assertion(Box::new(Spec::Leaf(LeafSpec::Str("level".into()))), Box::new(Spec::Leaf(LeafSpec::U8(i as u8))))]);
+            }
+        }
+        ctx.class("deep-nesting(>=8 more levels)");
+    }
     let model = spec_model(&spec);
     let root = model.digest();
     classify(&model, ctx);
